@@ -51,7 +51,9 @@ def offOfY : Y → MOff
 
 def opndOfY : Y → Option Opnd
   | .list [.str canon, .str key, v, off, pv] =>
-    (C07.decodeOperand canon).map fun p => { p := p, key := key, val := valOfY v, off := offOfY off, postVal := valOfY pv }
+    (C07.decodeOperand canon).map fun p =>
+      { p := p, key := key, val := valOfY v, off := offOfY off, postVal := valOfY pv,
+        offSym := (match off with | .list [.str [115], .str t] => t | _ => []) }    -- ["s", key]: an identifier
   | _ => none
 
 def insOfY : Y → Option (Option Txt × List Opnd)
